@@ -64,10 +64,16 @@ func props3(c *hlib.Ctx, name string, s sdf3, desc string, q model3d.Coord3D) {
 		c.PropFail("prop:c06/"+name+"/"+pred, fmt.Sprintf("%s at %v: %s", desc, q, detail))
 	}
 	c.Stat("props3/"+name, 1)
-	if d := q.Dist(p); math.Abs(d-math.Abs(val)) > 1e-7*sc {
+	// Cone.genericSDF finds the generator through safeNormal, which replaces a radial direction that is
+	// less than 1e-5 of the distance from the base by an arbitrary one: absolute accuracy 1e-5 * size.
+	tol := 1e-7 * sc
+	if name == "cone" {
+		tol = 3e-5 * sc
+	}
+	if d := q.Dist(p); math.Abs(d-math.Abs(val)) > tol {
 		fail("nearest-point-not-at-reported-distance", fmt.Sprintf("|q-p|=%v |sdf|=%v p=%v", d, math.Abs(val), p))
 	}
-	if sp := s.SDF(p); math.Abs(sp) > 1e-7*sc {
+	if sp := s.SDF(p); math.Abs(sp) > tol {
 		fail("nearest-point-not-on-surface", fmt.Sprintf("sdf(p)=%v p=%v", sp, p))
 	}
 	if val > 1e-9*sc && !s.Contains(q) {
